@@ -1,7 +1,6 @@
 (* C12: every way of reading or continuing a file yields the same event stream.
    Statements only, about the executable model coq/Model/IOModel.v of EventIterator (chunk
-   loading as written: min start / end of the last maximal start / split by each event's own
-   index start), HDF5Reader.__iter__/__getitem__, append-mode open and FileGenerator; proofs in
+   loading as written: min start / max row end / split by each event's own index start), HDF5Reader.__iter__/__getitem__, append-mode open and FileGenerator; proofs in
    Proofs/IO_reader.v and Proofs/C12_proofs.v.
 
    read_obs st i is the specification reader: per table, the rows [start_i, start_i+len_i)
@@ -52,6 +51,20 @@ Theorem load_data_eq_spec : forall st ss se step c, inv st -> 0 <= ss -> ss < se
   ev_obs st (chunk_of st ss se step) c = read_obs st (ss + c * step).
 Proof. intros. split; [apply load_data_ok | apply ev_obs_spec]; assumption. Qed.
 Print Assumptions load_data_eq_spec.
+
+(* the loader's block-and-split formula returns each selected event's own slice for ANY index
+   entries that address rows inside the dataset -- no ordering, contiguity or completeness of the
+   entries is needed; this covers datasets indexed for only some events in arbitrary order
+   (analysis datasets filled with add_analysis_indices), which are otherwise outside the model *)
+Theorem load_split_any_index : forall (rws : list row) (ti : list (Z * Z)),
+  (forall c, In c ti -> 0 <= fst c /\ 0 <= snd c /\ fst c + snd c <= zlen rws) ->
+  let tmp_start := list_min (map fst ti) in
+  let tmp_end := list_max (map (fun c => fst c + snd c) ti) in
+  let tmp := py_slice rws tmp_start tmp_end in
+  map (fun c => py_slice tmp (fst c - tmp_start) (fst c - tmp_start + snd c)) ti =
+  map (fun c => py_slice rws (fst c) (fst c + snd c)) ti.
+Proof. exact load_formula. Qed.
+Print Assumptions load_split_any_index.
 
 (* a file written in several append-mode sessions is the file written in one session *)
 Theorem append_eq_single : forall o d hd ops1 ops2, records_particles o = true ->
